@@ -494,3 +494,29 @@ mutant("rl-start-of-input-significant", [(L, "        None => false,\n        So
        [("C09", "R09.1")], base=RL, note="lexnext refactor + leading newline emits a terminator")
 mutant("rl-polarity", [(L, "        Some(t) => !continues_statement(t),", "        Some(t) => continues_statement(t),")],
        [("C09", "R09.1")], base=RL, note="lexnext refactor + inverted decision")
+
+RM = "refactors/mainerr/patch.diff"
+mutant("rm-wrapper-dropped-from-peel-list",
+       [(MAIN, "        EvalError::EvalReturnExprFailed{source} |\n", "")],
+       [("C17", "L1")], base=RM, note="mainerr refactor + one wrapper missing from the transparent list")
+
+RT = "refactors/rendertype/patch.diff"
+V = "src/eval/value.rs"
+mutant("rt-str-named-str", [(V, '            Value::Str(_) => "string",', '            Value::Str(_) => "str",')],
+       [("C16", "R16.3")], base=RT, note="rendertype refactor + string kind renamed")
+mutant("rt-mismatch-swapped", [(E, "                lhs.type_name().to_string(),\n                rhs.type_name().to_string(),", "                rhs.type_name().to_string(),\n                lhs.type_name().to_string(),")],
+       [("C10", "R10.5")], base=RT, note="rendertype refactor + swapped type names in the == mismatch")
+
+SC = "src/eval/scope.rs"
+mutant("c04-lookup-outermost-first",
+       [(SC, "    pub fn get(&self, name: &String) -> Option<SourcedValue> {\n        for scope in self.0.iter().rev() {",
+             "    pub fn get(&self, name: &String) -> Option<SourcedValue> {\n        for scope in self.0.iter() {")],
+       [("C04", "R04.5"), ("C20", "R20.7")], note="name lookup walks the chain outermost-first")
+RSC = "refactors/scope/patch.diff"
+mutant("rsc-defining-scope-outermost-first",
+       [(SC, "        for scope in self.scopes.iter().rev() {", "        for scope in self.scopes.iter() {")],
+       [("C04", "R04.5")], base=RSC, note="scope refactor + search outermost-first")
+mutant("rsc-push-skipped-when-empty",
+       [(SC, "        let mut scopes = self.scopes.clone();\n        scopes.push(Arc::new(Mutex::new(scope)));",
+             "        let mut scopes = self.scopes.clone();\n        if !scope.is_empty() || scopes.is_empty() {\n            scopes.push(Arc::new(Mutex::new(scope)));\n        }")],
+       [("C04", "R04.4"), ("C20", "R20.6")], base=RSC, note="scope refactor + empty scopes not pushed")
